@@ -65,16 +65,17 @@ type lcInit struct {
 }
 
 type lcBehaviour struct {
-	ID         string   `json:"id"`
-	Proto      string   `json:"proto"` // smtp | pop3
-	Store      string   `json:"store"` // mem | file
-	Hub        string   `json:"hub"`   // wired: the hub listens to the store's extension host (full assembly) | detached
-	Names      []string `json:"names"`
-	Init       []lcInit `json:"init"`
-	Steps      []lcStep `json:"steps"`
-	ScanWaitMS int      `json:"scan_wait_ms"` // sleep before the cancel step (the scanner's first scan starts after one minute)
-	SleepMS    int      `json:"retention_sleep_ms"`
-	Isolate    bool     `json:"isolate"` // run in a child process; its death is recorded as an event
+	ID           string   `json:"id"`
+	Proto        string   `json:"proto"` // smtp | pop3
+	Store        string   `json:"store"` // mem | file
+	Hub          string   `json:"hub"`   // wired: the hub listens to the store's extension host (full assembly) | detached
+	Names        []string `json:"names"`
+	Init         []lcInit `json:"init"`
+	Steps        []lcStep `json:"steps"`
+	ScanWaitMS   int      `json:"scan_wait_ms"` // sleep before the cancel step (the scanner's first scan starts after one minute)
+	SleepMS      int      `json:"retention_sleep_ms"`
+	RetentionOff bool     `json:"retention_off"` // retention period 0 (scanner disabled): Start returns at once, Join must still return
+	Isolate      bool     `json:"isolate"`       // run in a child process; its death is recorded as an event
 }
 
 type lcInput struct {
@@ -282,7 +283,11 @@ func runLifecycleBehaviour(lg *lcLog, b lcBehaviour, scratch string) {
 			return
 		}
 	}
-	scanner := storage.NewRetentionScanner(root.Storage, scanStore)
+	scannerCfg := root.Storage
+	if b.RetentionOff {
+		scannerCfg.RetentionPeriod = 0
+	}
+	scanner := storage.NewRetentionScanner(scannerCfg, scanStore)
 	scanner2 := storage.NewRetentionScanner(root.Storage, scanStore) // for a scan that is under way when shutdown is requested
 	var server lcServer
 	if b.Proto == "smtp" {
